@@ -117,6 +117,8 @@ class Prover:
         try:
             for a in self.assumptions:
                 s.add(a)
+            for a in ctx.assumptions:          # ranges of fresh_range() symbols, harness-level assumptions
+                s.add(a)
             for c in conds:
                 s.add(c)
             r = s.check()
